@@ -100,7 +100,15 @@ def builder_cases(c, thorough):
             dgs = [{"items": [{"t": "c", "o": o, "l": l} for (o, l) in dg] + [{"t": "p", "l": 7}] * rng.choice([0, 1]) + [{"t": "g"}] * rng.choice([0, 1])} for dg in fl]
             fb = {"kind": "flight", "datagrams": dgs}
         else:
-            fb = {"kind": "rflight", "per": [{"ranges": [{"o": o, "l": l} for (o, l) in dg], "frames": rf(rng, rng.choice([0, 0, 1162]))} for dg in fl]}
+            def tight(dg):
+                # a Length that leaves only a few bytes (or none) for PADDING: the datagram's CRYPTO bytes + frame headers + 0..40
+                tot = 0
+                for (o, l) in dg:
+                    st = o if o >= 0 else n + o
+                    tot += max(0, l if l > 0 else n - st + l)
+                return tot + rng.choice([0, 3, 4, 5, 6, 8, 10, 12, 16, 20, 30, 40])
+            fb = {"kind": "rflight", "per": [{"ranges": [{"o": o, "l": l} for (o, l) in dg],
+                                              "frames": rf(rng, rng.choice([0, 0, 1162]) if rng.random() < 0.6 else tight(dg))} for dg in fl]}
         cases.append({"group": "flight", "cfg": {"tier": "builder", "n": n, "base": 0, "dg": 0, "draws": draws if fb["kind"] == "rflight" else 1,
                                                  "fb": fb, "budgets": budgets, "good": good}, "ops": []})
     return cases
@@ -176,9 +184,11 @@ def run(replay=None):
         cases = builder_cases(c, thorough) + scrambler_cases(c, thorough) + wire_cases(c, thorough)
         c.parts.append({"step": "generate", "what": "seeded tilings / multi-datagram / flight parameterisations, wire configurations", "cases": len(cases), "exhaustive": False})
     c.samples = vlib.sample_cases(cases, c.rng, 3)
-    groups = c.go_run(".", "TestVerifC09", cases, vlib.pkg_overlay(".", "root"), timeout=2400)
+    # a builder that never returns is a crash of its own kind: per-case watchdog (real time; the cases take milliseconds)
+    groups = c.go_run(".", "TestVerifC09", cases, vlib.pkg_overlay(".", "root"), timeout=2400,
+                      env={"VERIF_CASE_WATCHDOG": "10"}, crash_pkg="github.com/refraction-networking/uquic")
     viols = c.validate_many(c.spec("CryptoTiling_Trace.tla"), [{"label": g, "files": f, "constants": {}, "invariants": INV} for g, f in groups.items()], timeout=2400, max_iter=6)
-    if not replay:
+    if not replay and not getattr(c, "partial", False):
         c.require_events(["Start", "Frame", "End", "Learn"])
         for g in ("random", "frames", "multi", "flight", "scrambler", "wire"):
             ok = 0
